@@ -13,7 +13,8 @@ section (core Lean only):
 * `items/edges/edge.py`, `arcs/arc_base.py`   `Edge.is_valid`, `ArcEdgeBase.is_valid`
 * `lists/vertex_list.py`     only the first-occurrence numbering of corner locations (no merged
                              patches); the full vertex model is C05's
-* `mesh.py`                  the loop of `Mesh.assemble` as far as vertices and edges go
+* `mesh.py`                  the loops of `Mesh.assemble` as far as vertices, edges and the edge of
+                             every wire go (repaired: wires are re-linked to the final edge list)
 
 Data objects are identified by a tag; the 12 positions of an operation are *slots*
 0-3 bottom edge i, 4-7 top edge i, 8-11 side edge i.
@@ -187,6 +188,15 @@ def addAll (pos : Nat → V3) : List Entry → List Entry → List Entry × List
 
 def run (pos : Nat → V3) (rs : List Entry) (es : List Entry) : List Entry := (addAll pos es rs).1
 
+/-- `EdgeList.clear()`: nothing of the previous assembly survives -/
+def clear (_es : List Entry) : List Entry := []
+
+/-- the edge list of a history: the same `add` calls made once and then `n` more times, each time
+    after `clear()` (`Mesh.clear(); Mesh.assemble()` or `Mesh.backport()` with unmoved vertices) -/
+def reassembled (pos : Nat → V3) (rs : List Entry) : Nat → List Entry
+  | 0 => run pos rs []
+  | n + 1 => run pos rs (clear (reassembled pos rs n))
+
 /-! ### operations -/
 
 /-- an operation after its corners were turned into vertices: 8 vertex indices, 12 slot data -/
@@ -251,11 +261,22 @@ structure Assembled where
   wires : List Entry
   deriving Repr
 
+/-- the last loop of `Mesh.assemble` (repair): a wire takes the listed edge of its vertex pair when
+    there is one, and keeps the edge `add` handed back (a line or an invalid edge) otherwise -/
+def relink (es : List Entry) (w : Entry) : Entry := (find es w.v1 w.v2).getD w
+
 def assemble (locPos : Nat → V3) (beams : List (Nat × Nat × Nat)) (us : List UOp) : Assembled :=
   let r := resolveAll locPos [] us
   let vpos := fun v => locPos (r.1.getD v 0)
   let a := addAll vpos [] (allReqs beams r.2)
-  { vlocs := r.1, rops := r.2, edges := a.1, wires := a.2 }
+  { vlocs := r.1, rops := r.2, edges := a.1, wires := a.2.map (relink a.1) }
+
+/-- the same after `n` further re-assemblies (vertex numbering and requests repeat; the edge list
+    goes through `clear` and the same `add` calls again) -/
+def assembleAgain (locPos : Nat → V3) (beams : List (Nat × Nat × Nat)) (us : List UOp) (n : Nat) : Assembled :=
+  let a := assemble locPos beams us
+  let vpos := fun v => locPos (a.vlocs.getD v 0)
+  { a with edges := reassembled vpos (allReqs beams a.rops) n }
 
 /-! ### line protocol -/
 
@@ -311,21 +332,19 @@ def showV3s (ps : List V3) : String := if ps.isEmpty then "-" else "_".intercala
 def showEntry (e : Entry) : String :=
   s!"{e.d.kind.name}:{e.v1}:{e.v2}:{e.d.tag}:{showRat e.d.angle}:{showV3s e.d.pts}"
 
-/-- `c07.asm <locations> <op|op|…>` →
+/-- answer of `c07.asm <locations> <op|op|…> [n]` →
     `V[vertex locations] B[8 vertices per op] E[entries] W[corner pair and edge held, per beam, 12 per op]`;
     `err` when `Operation.edges` / `edge_map` would raise on the current tables. -/
-def handleAsm (args : List String) : Option String :=
-  match args with
-  | [locs, ops] => do
+def handleAsmN (locs ops : String) (n : Nat) : Option String := do
       let lp ← parseV3s? locs ";"
       let us ← (ops.splitOn "|").mapM parseUOp?
-      let n := lp.length
+      let nl := lp.length
       -- every location id must exist
-      if us.any (fun u => (u.bottom.pts ++ u.top.pts).any (fun l => l ≥ n)) then none else
+      if us.any (fun u => (u.bottom.pts ++ u.top.pts).any (fun l => l ≥ nl)) then none else
       match directedBeams with
       | none => some "err"
       | some beams =>
-        let a := assemble (fun l => lp.getD l V3.zero) beams us
+        let a := assembleAgain (fun l => lp.getD l V3.zero) beams us n
         let v := showNatList a.vlocs
         let b := ";".intercalate (a.rops.map (fun o => showNatList o.verts))
         let e := ";".intercalate (a.edges.map showEntry)
@@ -333,6 +352,12 @@ def handleAsm (args : List String) : Option String :=
         let w := ";".intercalate ((a.wires.zip corners).map (fun (x, c) =>
           s!"{c.1}:{c.2.1}:{x.v1}:{x.v2}:{x.d.kind.name}:{x.d.tag}:{if a.edges.contains x then 1 else 0}"))
         some s!"V{v} B[{b}] E[{e}] W[{w}]"
+
+/-- `c07.asm <locations> <ops> [n]`: `n` = number of re-assemblies after the first one -/
+def handleAsm (args : List String) : Option String :=
+  match args with
+  | [locs, ops] => handleAsmN locs ops 0
+  | [locs, ops, n] => n.toNat?.bind (handleAsmN locs ops)
   | _ => none
 
 /-- `c07.face l0.l1.l2.l3@d;d;d;d@op+op <locations>` → points, tags, and direction-dependent
